@@ -15,7 +15,7 @@ pub fn def01() -> PropDef {
     PropDef {
         info: PropInfo {
             id: "C01",
-            rule: "structured programs (tree -> bytes; every ALU/JMP/JMP32/LD/LDX/ST/STX opcode x registers r0-r9 x boundary-heavy immediates; nested if/else, dead code, counted loops with back edges, helper calls, local calls, pointer spills, packet / metadata / stack accesses at boundary positions, junk in unused fields; optional 32k/65k-instruction padding) on all four VM kinds with random packet and metadata contents; the interpreter's return value / error class and every byte of packet and metadata buffer are compared with an independent reference interpreter that tracks definedness (undefined runs are discarded and counted). Non-trivial = model-defined run that executes at least one conditional jump, helper call or local call in addition to the fixed prologue/epilogue (which alone is ~70 instructions with 9+ memory accesses); distinct by hash of program+input.",
+            rule: "structured programs (tree -> bytes; every ALU/JMP/JMP32/LD/LDX/ST/STX opcode x registers r0-r9 x boundary-heavy immediates; nested if/else, dead code, counted loops with back edges, helper calls, local calls, pointer spills, packet / metadata / stack accesses at boundary positions, junk in unused fields; optional 32k/65k-instruction padding) on all four VM kinds with random packet and metadata contents; the interpreter's return value / error class and every byte of packet and metadata buffer are compared with an independent reference interpreter that tracks definedness (undefined runs are discarded and counted).  Plus the instruction matrix (harness/vrun/src/props/matrix.rs): a deterministic enumeration of ~108,000 single-instruction tests - every ALU / JMP / JMP32 opcode x all 100 (dst, src) pairs of r0-r9 x boundary operand pairs (all 400 pairs of a 20-value pool on three register pairs), immediate forms x every destination x 14 immediates, neg / byte swaps / lddw, loads, stores and atomic adds of every width through every base register (r10 included) at 8 displacements - 32 tests per program, each result stored to its own packet slot; a failing program is re-run test by test. Non-trivial = model-defined run that executes at least one conditional jump, helper call or local call in addition to the fixed prologue/epilogue (which alone is ~70 instructions with 9+ memory accesses); distinct by hash of program+input.",
             assumptions: &["reference interpreter harness/vrun/src/model.rs states the ISA semantics of C01 correctly (MOD32 by zero leaves all 64 bits, DESIGN 6.1)", "the interpreter's 512-byte stack is 8-byte aligned", "executions run in a forked child with an instruction budget of 100 x model steps + 10000"],
         },
         run: run01,
@@ -28,7 +28,7 @@ pub fn def03() -> PropDef {
     PropDef {
         info: PropInfo {
             id: "C03",
-            rule: "same program generator as C01 (independent seed stream), premise filtered by the reference model (terminates, no dependence on undefined state, all accesses in bounds); in a forked child the interpreter and the x86-64 JIT each run from freshly initialised buffers at identical addresses; return value and every byte of packet and metadata buffer must be equal; JIT compile errors/panics, traps and crashes on such programs are violations. Non-trivial = premise holds, >= 1 executed conditional jump, helper call or local call beyond the fixed prologue/epilogue, >= 3 distinct registers of which one in r4-r9; distinct by hash of program+input.",
+            rule: "same program generator as C01 (independent seed stream), premise filtered by the reference model (terminates, no dependence on undefined state, all accesses in bounds); in a forked child the interpreter and the x86-64 JIT each run from freshly initialised buffers at identical addresses; return value and every byte of packet and metadata buffer must be equal; JIT compile errors/panics, traps and crashes on such programs are violations.  Plus the instruction matrix (harness/vrun/src/props/matrix.rs): a deterministic enumeration of ~108,000 single-instruction tests - every ALU / JMP / JMP32 opcode x all 100 (dst, src) pairs of r0-r9 x boundary operand pairs (all 400 pairs of a 20-value pool on three register pairs), immediate forms x every destination x 14 immediates, neg / byte swaps / lddw, loads, stores and atomic adds of every width through every base register (r10 included) at 8 displacements - 32 tests per program, each result stored to its own packet slot; a failing program is re-run test by test. Non-trivial = premise holds, >= 1 executed conditional jump, helper call or local call beyond the fixed prologue/epilogue, >= 3 distinct registers of which one in r4-r9; distinct by hash of program+input.",
             assumptions: &["premise classification by the reference model", "a JIT run that hits the 180 s watchdog is reported as inconclusive (exit 2), not as a violation"],
         },
         run: run03,
@@ -41,7 +41,7 @@ pub fn def04() -> PropDef {
     PropDef {
         info: PropInfo {
             id: "C04",
-            rule: "equivalence part: C01 generator without local calls, premise filtered by the model, interpreter vs Cranelift-compiled code in a forked child (same addresses), return value and all packet/metadata bytes compared; refusal part: programs containing an eBPF-to-eBPF call, with helper sets that do / do not contain an id equal to a call displacement, must make cranelift_compile return Err (never Ok, never a panic). Non-trivial = (equivalence) premise holds, >= 8 executed instructions, >= 1 executed conditional jump (>= 2 basic blocks); (refusal) program with a local call; distinct by hash.",
+            rule: "equivalence part: C01 generator without local calls, premise filtered by the model, interpreter vs Cranelift-compiled code in a forked child (same addresses), return value and all packet/metadata bytes compared; refusal part: programs containing an eBPF-to-eBPF call, with helper sets that do / do not contain an id equal to a call displacement, must make cranelift_compile return Err (never Ok, never a panic).  Plus the instruction matrix (harness/vrun/src/props/matrix.rs): a deterministic enumeration of ~108,000 single-instruction tests - every ALU / JMP / JMP32 opcode x all 100 (dst, src) pairs of r0-r9 x boundary operand pairs (all 400 pairs of a 20-value pool on three register pairs), immediate forms x every destination x 14 immediates, neg / byte swaps / lddw, loads, stores and atomic adds of every width through every base register (r10 included) at 8 displacements - 32 tests per program, each result stored to its own packet slot; a failing program is re-run test by test. Non-trivial = (equivalence) premise holds, >= 8 executed instructions, >= 1 executed conditional jump (>= 2 basic blocks); (refusal) program with a local call; distinct by hash.",
             assumptions: &["premise classification by the reference model", "Cranelift traps (SIGILL) and crashes on premise-satisfying programs are violations; watchdog hits are inconclusive"],
         },
         run: run04,
@@ -163,6 +163,8 @@ fn run01(ctx: &Ctx) {
         let v = check01(&mut runner.borrow_mut(), &mut case, if frozen { None } else { Some(&mut st) });
         (v, if want_case { case.to_json() } else { Value::Null })
     });
+    // every opcode x every register pair x boundary operands, one instruction per test
+    super::matrix::run(ctx, &runner, ctx.tier.pick(4, 16) as usize, 1, &|r, c| check01(r, c, None));
 }
 
 fn replay01(_ctx: &Ctx, _kind: &str, case: &Value) -> Verdict {
@@ -251,6 +253,7 @@ fn run_diff(ctx: &Ctx, engine: Engine, local_calls: bool, quick: u64, thorough: 
         let v = check_diff(&mut runner.borrow_mut(), &mut case, engine, if frozen { None } else { Some(&mut st) });
         (v, if want_case { case.to_json() } else { Value::Null })
     });
+    super::matrix::run(ctx, &runner, ctx.tier.pick(4, 16) as usize, 1, &|r, c| check_diff(r, c, engine, None));
 }
 
 fn run03(ctx: &Ctx) {
